@@ -11,7 +11,7 @@ run_one() {
   git -C /repo worktree remove --force $wt >/dev/null 2>&1; rm -rf $wt
   git -C /repo worktree add --detach $wt HEAD >/dev/null 2>&1 || { echo "$id ERROR worktree"; return; }
   if ! git -C $wt apply /verif/seeded/$id/patch.diff 2>/dev/null; then echo "$id ERROR patch does not apply"; git -C /repo worktree remove --force $wt; return; fi
-  out=$(/verif/bin/govc check --repo $wt --property $prop 2>&1); rc=$?
+  out=$(/verif/bin/govc check --repo $wt --property $prop --evidence-dir /var/tmp/seed-evidence 2>&1); rc=$?
   n=$(echo "$out" | grep -c '^VIOLATION')
   exp=$(python3 -c "import json;print(json.load(open('/verif/seeded/$id/meta.json')).get('detected'))" 2>/dev/null)
   if [ $rc -eq 1 ] && [ $n -gt 0 ]; then echo "$id DETECTED ($n violation lines; meta says detected=$exp)"; 
